@@ -246,9 +246,23 @@ class ExprGen:
             return {"Fn::And": [self.b(d - 1) for _ in range(r.randint(1, 3))]}
         return {"Fn::Or": [self.b(d - 1) for _ in range(r.randint(1, 3))]}
 
+    def unsupported(self, d):
+        """an intrinsic pycfmodel does not implement, wrapping supported ones: an ordinary object to the resolver"""
+        r = self.r
+        name = r.choice(["Fn::Cidr", "Fn::Length", "Fn::ToJsonString", "Fn::Transform", "Fn::ForEach::Loop", "Fn::GetParam"])
+        if name == "Fn::Cidr":
+            return {name: [self.s(d - 1), "4", "8"]}
+        if name == "Fn::Length":
+            return {name: self.l(d - 1)}
+        if name == "Fn::Transform":
+            return {name: {"Name": "AWS::Include", "Parameters": {"Location": self.s(d - 1)}}}
+        return {name: self.s(d - 1) if r.random() < 0.5 else [self.s(d - 1), {"k": self.s(d - 1)}]}
+
     def any(self, d):
         r = self.r
         k = r.random()
+        if d > 0 and r.random() < 0.06:
+            return self.unsupported(d)
         if d <= 0 or k < 0.4:
             return self.s(d)
         if k < 0.55:
